@@ -283,7 +283,9 @@ def expressions(ctx):
             c1, c2 = rnd.choice(CALL_TARGETS)[0], rnd.choice(CALL_TARGETS)[0]
             # the outer construct must not depend on the VALUE of the inner one (chains, any/all stop early): the canary
             # oracles of the model only know canaries' truthiness
-            plain = [e for e in ENCLOSURES if "<" not in e and "any(" not in e and "all(" not in e]
+            # (and not `.attr` of the inner value: `not x` / `x and y` / str(x) are real bools and strings, whose attribute reads no
+            #  canary logs, while the model's objects are symbolic)
+            plain = [e for e in ENCLOSURES if "<" not in e and "any(" not in e and "all(" not in e and e != "{c}.attr"]
             e1, e2 = rnd.choice(ENCLOSURES), rnd.choice(plain)
             inner = (e1.format(c="%s(%s)" % (c1, c2)) if "{c}({c})" not in e1 else "%s(%s)" % (c1, c2))
             out.append(e2.format(c="(%s)" % inner) if "{c}({c})" not in e2 else "(%s)()" % inner)
@@ -328,8 +330,19 @@ Open Scope list_scope.
 (* the canary objects of the harness: everything is truthy except falsy constants, empty displays and the sentinel;
    iterating a display yields its elements, iterating any other object yields two children *)
 Fixpoint type_rooted (o : obj) : bool :=
-  match o with OPlain n => String.eqb n "Type" | OAttr p _ => type_rooted p | _ => false end.
-Definition falsy_operand (o : obj) : bool := match o with OMissing => true | _ => type_rooted o end.
+  match o with
+  | OPlain n => String.eqb n "Type"
+  | OAttr p _ => type_rooted p
+  | OCall (OFun f) (a :: _) => if String.eqb f "lower" || String.eqb f "upper" then type_rooted a else false   (* lower(x) is x for a non-string *)
+  | _ => false
+  end.
+(* lower(x) / upper(x) hand a non-string x back unchanged: the sentinel stays the sentinel *)
+Fixpoint through_case_helpers (o : obj) : obj :=
+  match o with
+  | OCall (OFun f) (a :: _) => if String.eqb f "lower" || String.eqb f "upper" then through_case_helpers a else o
+  | _ => o
+  end.
+Definition falsy_operand (o : obj) : bool := match through_case_helpers o with OMissing => true | x => type_rooted x end.
 Definition c_truthy (o : obj) : bool :=
   match o with
   | OConst t => t | OMissing => false | OSeq [] => false
@@ -372,7 +385,10 @@ Definition case_ok_f (fs : list string) (n : node) (impl : nat) (impl_reads : li
   match r with
   | Ok _ => if Nat.eqb impl 0 then reads_eqb (canary_reads evs) impl_reads
             else negb (Nat.eqb impl 1) && reads_prefix impl_reads (canary_reads evs)
-  | Err e => Nat.eqb (err_code e) impl && reads_eqb (canary_reads evs) impl_reads
+  | Err e => (Nat.eqb (err_code e) impl && reads_eqb (canary_reads evs) impl_reads)
+             (* an ALLOWED callee raised an exception of its own on the canary arguments (ValueError from a field-type
+                constructor ...) before the evaluation reached the point where the model stops: reads are a prefix *)
+             || (Nat.eqb impl 5 && reads_prefix impl_reads (canary_reads evs))
   end.
 Definition case_ok := case_ok_f ["a"].
 """
